@@ -143,6 +143,23 @@ def cases_for(rng, tier):
             a[3] = {'OUTLET_TEMP': 760.0 + 5 * i}
         elif i % 3 == 2:
             a[3] = {'DELTA_TEMP': 110.0}
+    # user film constants together with a numeric convection factor in
+    # un-rodded regions and in a low-fidelity assembly (lists of the parsed
+    # input reach the regions), temperature-dependent coolant with a
+    # property-update tolerance and a flowing gap (material objects of the
+    # parsed input reach the core)
+    R = scenarios.add_regions(
+        fitted_type(2, OF), 0.6,
+        upper=dict(model='simple', vf_coolant=0.4, convection_factor=0.5,
+                   htc_params=[0.025, 0.8, 0.8, 7.0]),
+        lower=dict(model='6node', vf_coolant=0.3, convection_factor=0.7,
+                   htc_params=[0.03, 0.75, 0.8, 6.0]))
+    UL = fitted_type(3, OF, use_low_fidelity_model=True,
+                     low_fidelity_model='simple', convection_factor=0.6,
+                     htc_params_duct=[0.023, 0.8, 0.4, 5.0])
+    core('4-htc-lists-sodium-updtol-2tp', {'R': R, 'UL': UL},
+         ['R', 'UL', 'R', 'R'], 2, coolant='sodium',
+         setup={'param_update_tol': 0.01})
     if tier == 'thorough':
         single('rod2-adiabatic-4tp', bundle_type(2), 4, gap='none')
         c = single('rod3-sodium-2tp', bundle_type(3), 2, coolant='sodium',
